@@ -69,8 +69,8 @@ fn def(prop: &str, tier: u8) -> Option<Def> {
     // sync::Arc, alloc tracking, transmuted borrows of statics, raw wakers, state reuse across models)
     let mc: (usize, usize) = match prop {
         "C05" => (48, 600),
-        "C06" => (96, 3000),
-        "C10" => (64, 2000),
+        "C06" => (64, 3000),
+        "C10" => (24, 2000),
         "C11" => (64, 2000),
         "C16" => (0, 32),
         "C17" => (96, 2000),
